@@ -114,7 +114,7 @@ pub fn snippet(rng: &mut Rng, k: usize, opaque: &str, enm: Option<&str>, option:
         7 => ("disable", format!(
             "    #[diplomat::opaque]\n    pub struct XtDis;\n    impl XtDis {{\n        #[diplomat::attr(*, disable)]\n        pub fn hidden(&self, v: u128) {{ unimplemented!() }}\n        pub fn shown(&self) -> {p} {{ unimplemented!() }}\n    }}\n    #[diplomat::attr(*, disable)]\n    pub struct XtGone {{ pub a: u8 }}\n")),
         8 => ("docs", format!(
-            "    /// Docs with `code`, a [`link`](https://example.com), <b>html</b> and */ a comment end.\n    ///\n    /// # Heading\n    ///\n    /// ```\n    /// let x = 1;\n    /// ```\n    #[diplomat::rust_link(core::option::Option, Enum)]\n    #[diplomat::rust_link(core::option::Option::is_some, FnInEnum, hidden)]\n    #[diplomat::opaque]\n    pub struct XtDoc;\n    impl XtDoc {{\n        /// Method docs: \"quotes\", \\backslash, $dollar, {{braces}}, @at.\n        #[diplomat::rust_link(core::option::Option::unwrap, FnInEnum, compact)]\n        pub fn documented(&self, v: {p}) -> {p} {{ unimplemented!() }}\n    }}\n    /// Enum docs\n    pub enum XtDocEnum {{\n        /// variant docs\n        A,\n        /** block */\n        B }}\n    /// Struct docs\n    pub struct XtDocSt {{\n        /// field docs\n        #[diplomat::rust_link(core::option::Option, Enum)]\n        pub a: {p},\n        #[diplomat::attr(*, rename = \"renamed_b\")]\n        pub b: u8 }}\n    /// Out-struct docs\n    #[diplomat::out]\n    pub struct XtDocOut {{\n        /// field docs\n        #[diplomat::rust_link(core::option::Option::is_none, FnInEnum, hidden)]\n        pub a: {p},\n        #[diplomat::attr(*, rename = \"renamed_c\")]\n        pub c: u8 }}\n    impl XtDoc {{ pub fn out(&self) -> XtDocOut {{ unimplemented!() }} }}\n")),
+            "    /// Docs with `code`, a [`link`](https://example.com), <b>html</b> and */ a comment end.\n    ///\n    /// # Heading\n    ///\n    /// ```\n    /// let x = 1;\n    /// ```\n    #[diplomat::rust_link(core::option::Option, Enum)]\n    #[diplomat::rust_link(core::option::Option::is_some, FnInEnum, hidden)]\n    #[diplomat::opaque]\n    pub struct XtDoc;\n    impl XtDoc {{\n        /// Method docs: \"quotes\", \\backslash, $dollar, {{braces}}, @at.\n        #[diplomat::rust_link(core::option::Option::unwrap, FnInEnum, compact)]\n        pub fn documented(&self, v: {p}) -> {p} {{ unimplemented!() }}\n    }}\n    /// Enum docs\n    pub enum XtDocEnum {{\n        /// variant docs\n        A,\n        /** block */\n        B }}\n    /// Struct docs\n    pub struct XtDocSt {{\n        /// field docs\n        #[diplomat::rust_link(core::option::Option, Enum)]\n        pub a: {p},\n        #[diplomat::rust_link(core::option::Option::is_some, FnInEnum, compact)]\n        pub b: u8 }}\n    /// Out-struct docs\n    #[diplomat::out]\n    pub struct XtDocOut {{\n        /// field docs\n        #[diplomat::rust_link(core::option::Option::is_none, FnInEnum, hidden)]\n        pub a: {p},\n        #[diplomat::rust_link(core::option::Option, Enum, compact)]\n        pub c: u8 }}\n    impl XtDoc {{ pub fn out(&self) -> XtDocOut {{ unimplemented!() }} }}\n")),
         9 => ("demo-attrs", format!(
             "    #[diplomat::opaque]\n    #[diplomat::demo(custom_func = \"custom.mjs\")]\n    pub struct XtDemo;\n    impl XtDemo {{\n        #[diplomat::demo(default_constructor)]\n        pub fn make(#[diplomat::demo(input(label = \"Start value\"))] v: {p}) -> Box<XtDemo> {{ unimplemented!() }}\n        #[diplomat::demo(generate)]\n        pub fn show(&self, w: &mut DiplomatWrite) {{ unimplemented!() }}\n        pub fn with_other(&self, o: &{opaque}, s: &str, w: &mut DiplomatWrite) {{ unimplemented!() }}\n    }}\n    #[diplomat::opaque]\n    #[diplomat::demo(external)]\n    pub struct XtExt;\n    impl XtExt {{ pub fn use_it(&self, w: &mut DiplomatWrite) {{ unimplemented!() }} }}\n")),
         10 => ("error-types", format!(
